@@ -37,45 +37,66 @@ def fill(n, sz=20, db=0, pre="k"):
     return ["put %d %s *%d:%02x" % (db, hx("%s%03d" % (pre, i)), sz, 0x30 + i % 40) for i in range(n)]
 
 
-def a_scenarios():
+def a_scenarios(rng=None):
+    """name -> (set-up, A operation, key of database 0 the readers/writers of B aim at, key B's delete removes).
+    rng = None: the canonical instance; otherwise sizes, fill bytes and key names are drawn inside the same branch."""
+    def r(a, b):
+        return rng.range(a, b) if rng else (a + b) // 2
+    k1 = hx("k" if not rng else "k" + "abcdefgh"[rng.below(8)] * rng.range(0, 6))
+    j1 = hx("j" if not rng else "j" + "abcdefgh"[rng.below(8)] * rng.range(0, 6))
+    big, small = (200, 8) if not rng else (r(150, 600), r(1, 16))
+    mid = 100 if not rng else r(small + 1, big - 40)
+    huge = 5000 if not rng else r(3000, 20000)
+    nfill = 40 if not rng else r(34, 60)
+    pos = 10 if not rng else r(2, 28)
     S = {}
     base = ["dbcreate 0", "dbcreate 1"]
-    S["put_same"] = (base + ["put 0 %s *100:41" % K], "put 0 %s *100:43" % K, K)
-    S["put_shrink"] = (base + ["put 0 %s *200:41" % K], "put 0 %s *8:42" % K, K)
-    S["put_slack"] = (base + ["put 0 %s *200:41" % K, "put 0 %s *8:42" % K], "put 0 %s *100:43" % K, K)
-    S["put_beyond"] = (base + ["put 0 %s *8:41" % K, "put 0 %s *8:45" % hx("j")], "put 0 %s *5000:43" % K, K)
-    S["put_new"] = (base + ["put 0 %s *8:41" % hx("j")], "put 0 %s *50:43" % K, K)
-    S["put_split"] = (base + fill(40), "put 0 %s *20:43" % hx("k010x"), hx("k010x"))
-    S["put_bigself"] = (base + ["put 0 %s *8:41" % K], "put 0 %s *300000:43" % K, K)
-    S["del_simple"] = (base + ["put 0 %s *8:41" % K, "put 0 %s *8:45" % hx("j")], "del 0 %s" % K, K)
-    S["del_node"] = (base + fill(40), "del 0 %s" % hx("k000"), hx("k000"))
-    S["del_lastnode"] = (base + fill(33), "del 0 %s" % hx("k032"), hx("k032"))
-    S["cset_same"] = (base + ["put 0 %s *100:41" % K], "cset 0 %s *100:43" % K, K)
-    S["cset_slack"] = (base + ["put 0 %s *200:41" % K, "put 0 %s *8:42" % K], "cset 0 %s *100:43" % K, K)
-    S["cset_beyond"] = (base + ["put 0 %s *8:41" % K, "put 0 %s *8:45" % hx("j")], "cset 0 %s *5000:43" % K, K)
-    S["cdel_simple"] = (base + ["put 0 %s *8:41" % K, "put 0 %s *8:45" % hx("j")], "cdel 0 %s" % K, K)
-    S["cdel_node"] = (base + fill(40), "cdel 0 %s" % hx("k000"), hx("k000"))
-    S["setmeta_first"] = (base + ["put 0 %s *8:41" % K], "setmeta 0 *64:4d", K)
-    S["setmeta_over"] = (base + ["put 0 %s *8:41" % K, "setmeta 0 *64:4c"], "setmeta 0 *64:4d", K)
-    S["dbcreate"] = (base + ["put 0 %s *8:41" % K], "dbcreate 2", K)
-    S["dbdestroy"] = (base + ["put 0 %s *8:41" % K, "dbcreate 2"] + fill(40, db=2), "dbdestroy 2", K)
-    S["sync"] = (base + ["put 0 %s *8:41" % K], "sync", K)
-    S["checkpoint"] = (base + ["put 0 %s *8:41" % K], "checkpoint", K)
-    S["backup"] = (base + ["put 0 %s *8:41" % K] + fill(20), "backup", K)
-    S["get_big"] = (base + ["put 0 %s *70000:41" % K], "get 0 %s" % K, K)
-    S["scan"] = (base + fill(40), "scan 0", hx("k010"))
+    two = ["put 0 %s *%d:41" % (k1, small), "put 0 %s *%d:45" % (j1, small)]
+    S["put_same"] = (base + ["put 0 %s *%d:41" % (k1, mid)], "put 0 %s *%d:43" % (k1, mid), k1, k1)
+    S["put_shrink"] = (base + ["put 0 %s *%d:41" % (k1, big)], "put 0 %s *%d:42" % (k1, small), k1, k1)
+    S["put_slack"] = (base + ["put 0 %s *%d:41" % (k1, big), "put 0 %s *%d:42" % (k1, small)], "put 0 %s *%d:43" % (k1, mid), k1, k1)
+    S["put_beyond"] = (base + two, "put 0 %s *%d:43" % (k1, huge), k1, k1)
+    S["put_new"] = (base + ["put 0 %s *%d:41" % (j1, small)], "put 0 %s *%d:43" % (k1, mid), k1, k1)
+    S["put_split"] = (base + fill(nfill), "put 0 %s *20:43" % hx("k%03dx" % pos), hx("k%03dx" % pos), hx("k%03dx" % pos))
+    S["put_bigself"] = (base + ["put 0 %s *%d:41" % (k1, small)], "put 0 %s *%d:43" % (k1, 300000 if not rng else r(100000, 900000)), k1, k1)
+    S["del_simple"] = (base + two, "del 0 %s" % k1, k1, k1)
+    S["del_node"] = (base + fill(nfill), "del 0 %s" % hx("k000"), hx("k000"), hx("k000"))
+    S["del_lastnode"] = (base + fill(33), "del 0 %s" % hx("k032"), hx("k032"), hx("k032"))
+    S["cset_same"] = (base + two[1:] + ["put 0 %s *%d:41" % (k1, mid)], "cset 0 %s *%d:43" % (k1, mid), k1, j1)
+    S["cset_slack"] = (base + two[1:] + ["put 0 %s *%d:41" % (k1, big), "put 0 %s *%d:42" % (k1, small)], "cset 0 %s *%d:43" % (k1, mid), k1, j1)
+    S["cset_beyond"] = (base + two, "cset 0 %s *%d:43" % (k1, huge), k1, j1)
+    S["cdel_simple"] = (base + two, "cdel 0 %s" % k1, k1, j1)
+    S["cdel_node"] = (base + fill(nfill), "cdel 0 %s" % hx("k000"), hx("k000"), hx("k005"))
+    S["cdel_lastnode"] = (base + fill(33), "cdel 0 %s" % hx("k032"), hx("k032"), hx("k005"))
+    S["setmeta_first"] = (base + two, "setmeta 0 *64:4d", k1, k1)
+    S["setmeta_over"] = (base + two + ["setmeta 0 *64:4c"], "setmeta 0 *64:4d", k1, k1)
+    S["dbcreate"] = (base + two, "dbcreate 2", k1, k1)
+    S["dbdestroy"] = (base + two + ["dbcreate 2"] + fill(nfill, db=2), "dbdestroy 2", k1, k1)
+    S["sync"] = (base + two, "sync", k1, k1)
+    S["checkpoint"] = (base + two, "checkpoint", k1, k1)
+    S["backup"] = (base + two + fill(20), "backup", k1, k1)
+    S["get_big"] = (base + ["put 0 %s *%d:41" % (k1, 70000 if not rng else r(20000, 200000))], "get 0 %s" % k1, k1, k1)
+    S["scan"] = (base + fill(nfill), "scan 0", hx("k010"), hx("k010"))
     return S
 
 
-def b_ops(key):
+# operations whose log records publish stores into the mapping (the trace comparison with the model applies to them)
+DATA_OPS = ("put", "del", "cset", "cdel", "setmeta", "dbcreate", "dbdestroy")
+# scenarios in which the unchanged library writes a log record with no lock held that excludes a remap
+# (_sblk_destroy: `onset` behind release_mmap, notes/conc.md): upper bound of such records per operation
+UNGUARDED_KNOWN = {"del_lastnode": 1, "cdel_lastnode": 1}
+
+
+def b_ops(key, delkey=None):
     return {"grow": "grow 1 %s" % hx("g"), "get": "get 0 %s" % key, "scan": "scan 0", "put_same": "put 0 %s *30:62" % key,
-            "put_other": "put 0 %s *30:62" % hx("zz"), "del": "del 0 %s" % key, "checkpoint": "checkpoint", "sync": "sync"}
+            "put_other": "put 0 %s *30:62" % hx("zz"), "del": "del 0 %s" % (delkey or key), "checkpoint": "checkpoint", "sync": "sync"}
 
 
-def script(path, wal, setup, a, b, kfrom=0, kto=0):
+def script(path, wal, setup, a, b, kfrom=0, kto=0, post=()):
     L = ["cfg %s %d 64" % (path, wal)] + ["s " + s for s in setup] + ["a " + a]
     if b:
         L.append("b " + b)
+    L += ["p " + p for p in post]
     L.append("run %d %d" % (kfrom, kto))
     return L
 
@@ -116,7 +137,9 @@ def parse_runs(out):
             cur[f[0]][int(f[1])] = f[2]
         elif f[0] == "END":
             cur["ended"] = True
-        elif f[0] in ("0", "1") and len(f) >= 8:
+        elif f[0] == "ALLOC":
+            cur["alloc"] = int(f[1])
+        elif f[0] in ("0", "1", "2") and len(f) >= 8:
             cur["calls"].append({"tid": int(f[0]), "inv": int(f[1]), "res": int(f[2]), "kind": f[3], "db": int(f[4]),
                                  "k": f[5], "v": f[6], "ans": f[7]})
     return runs, loose
@@ -175,18 +198,18 @@ def final_of(run, tag):
     return out
 
 
-def judge(C07, run, init, a_line, b_line):
+def judge(C07, run, init, a_line, b_line, npost=0):
     """None or the reason why this execution contradicts the property"""
     if run["bad"]:
         return "the run did not complete: %s" % run["bad"][:2]
     if not run["ended"]:
         return "the run did not complete (no END line)"
-    ncalls = 1 + (1 if b_line else 0)
+    ncalls = 1 + (1 if b_line else 0) + npost
     if len(run["calls"]) != ncalls:
         return "a call did not return (%d of %d call records)" % (len(run["calls"]), ncalls)
     for c in run["calls"]:
         if re.match(r"^(E\d+|NODB|NORETURN|\?)$", c["ans"]):
-            return "call %s of thread %s failed: %s" % (c["kind"], "AB"[c["tid"]], c["ans"])
+            return "call %s of thread %s failed: %s" % (c["kind"], "ABP"[c["tid"]], c["ans"])
     calls = [norm_call(c) for c in run["calls"]]
     final = final_of(run, "FINAL")
     if final is None:
@@ -200,8 +223,9 @@ def judge(C07, run, init, a_line, b_line):
         return "the store does not reopen to the contents it had before the close (database slots %s differ)" % d
     # states of the run: every order of every subset of the calls
     states = set()
-    for n in range(len(calls) + 1):
-        for perm in itertools.permutations(calls, n):
+    ab = [c for c in calls if c["tid"] in (0, 1)]
+    for n in range(len(ab) + 1):
+        for perm in itertools.permutations(ab, n):
             st = init
             for c in perm:
                 st = C07.apply(st, c)[1]
@@ -225,3 +249,228 @@ def init_state(C07, setup):
     for s in setup:
         st = C07.apply(st, spec_call(s))[1]
     return st
+
+
+# ---------------------------------------------------------------------------------------------------------------
+def model_predictions(model, jobs_traces):
+    """one model process: for every (wal, kmax, events) the unguarded-record count, segment count and the stale bits"""
+    inp = "\n".join("%d %d %s" % (w, km, " ".join(ev)) for w, km, ev in jobs_traces) + "\n"
+    p = subprocess.run([model], input=inp.encode(), stdout=subprocess.PIPE, stderr=subprocess.PIPE, timeout=600)
+    out = p.stdout.decode().split("\n")
+    res = []
+    for i in range(len(jobs_traces)):
+        f = out[i].split() if i < len(out) else []
+        res.append((int(f[0]), int(f[1]), f[2], int(f[3])) if len(f) == 4 and f[0].isdigit() else None)
+    return res
+
+
+def history_of(run):
+    return ["%s: %s %s key=%s value=%s -> %s   [invoked %d, returned %d]" % ("ABP"[c["tid"]], c["kind"], c["db"], c["k"][:40], c["v"][:70],
+                                                                             c["ans"][:120], c["inv"], c["res"]) for c in run["calls"]]
+
+
+def stage(run, C07, work, nrandom, open_findings=False, workers=12):
+    """the explorer: every (A, B) pair x WAL mode x every lock release of A"""
+    exe = vlib.build_harness("h_preempt")
+    try:
+        model = vlib.build_model("conc")
+    except vlib.BuildError as e:
+        run.broken.append("T2: the section model does not build: %s" % str(e)[-300:])
+        model = None
+    # earlier failures first (corpus/C07/*.json of kind preempt): one (A, B, k) each
+    cdir = os.path.join(vlib.VERIF, "corpus", "C07")
+    for fn in sorted(os.listdir(cdir)) if os.path.isdir(cdir) else []:
+        try:
+            r = json.load(open(os.path.join(cdir, fn)))
+        except (OSError, ValueError):
+            continue
+        if r.get("kind") != "preempt" or (r.get("class") == "sblk-destroy-late-log" and not open_findings):
+            continue
+        rc, out, err = run_script(exe, script(os.path.join(work, "corpus.db"), r["wal"], r["setup"], r["a"], r["b"], r["k"], -1, r.get("post", ())))
+        runs, loose = parse_runs(out)
+        run.case("corpus|" + fn, nontrivial=True)
+        run.dist("preempt corpus")
+        why = None
+        if rc != 0 or loose or not runs:
+            why = "the process did not survive (exit %s)" % rc
+        else:
+            runs[0]["wal"] = str(r["wal"])
+            why = judge(C07, runs[0], init_state(C07, r["setup"]), r["a"], r["b"], len(r.get("post", ())))
+            if not why and r.get("allocated_blocks_without_the_race") is not None and runs[0].get("alloc") != r["allocated_blocks_without_the_race"]:
+                why = "blocks stay allocated that no record needs (%s, %s without the race)" % (runs[0].get("alloc"), r["allocated_blocks_without_the_race"])
+        if why:
+            rep = {k: r[k] for k in ("kind", "pair", "wal", "setup", "a", "b", "k", "post", "class") if k in r}
+            rep.update(history=history_of(runs[0]) if runs else [], harness="h_preempt", corpus=fn)
+            run.violation(rep, "corpus %s: A = `%s`, B = `%s`, WAL %s, B released at lock release %d of A: %s"
+                          % (fn, r["a"][:60], r["b"][:40], "on" if r["wal"] else "off", r["k"], why))
+    jobs = []
+    inst = [("", a_scenarios())]
+    for i in range(nrandom):
+        inst.append(("#%d" % (i + 1), a_scenarios(run.rng.fork())))
+    for tag_, S in inst:
+        for name in sorted(S):
+            setup, a, key, dk = S[name]
+            for bn, b in sorted(b_ops(key, dk).items()):
+                for wal in (0, 1):
+                    if name == "backup" and bn == "grow" and wal == 1 and not open_findings:
+                        run.dist("preempt: backup x grow skipped (known finding C08-growth-during-main-copy)")
+                        continue
+                    if tag_ and bn not in ("grow", "put_other", "get"):     # randomised instances: the B operations that get through
+                        continue
+                    jobs.append({"name": name + tag_, "scen": name, "bn": bn, "wal": wal, "setup": setup, "a": a, "b": b,
+                                 "path": os.path.join(work, "pe%d.db" % len(jobs))})
+
+    def work_fn(j):
+        rc, out, err = run_script(exe, script(j["path"], j["wal"], j["setup"], j["a"], j["b"], 0, 0))
+        for suf in ("", "-wal", ".bkp", ".bkp-wal"):
+            try:
+                os.unlink(j["path"] + suf)
+            except OSError:
+                pass
+        return rc, out, err
+
+    with ThreadPoolExecutor(workers) as ex:
+        results = list(ex.map(work_fn, jobs))
+
+    traces, tidx = [], {}
+    parsed = []
+    for j, (rc, out, err) in zip(jobs, results):
+        runs, loose = parse_runs(out)
+        parsed.append((runs, loose))
+        if model and runs and j["a"].split()[0] in DATA_OPS:
+            tidx[len(parsed) - 1] = len(traces)
+            traces.append((j["wal"], int(runs[0].get("nrel", "0")), runs[0]["ev"]))
+    preds = model_predictions(model, traces) if model and traces else []
+
+    nviol = 0
+    stale_seen = 0
+    for ji, (j, (rc, out, err), (runs, loose)) in enumerate(zip(jobs, results, parsed)):
+        init = init_state(C07, j["setup"])
+        base = {"kind": "preempt", "pair": [j["name"], j["bn"]], "wal": j["wal"], "setup": j["setup"], "a": j["a"], "b": j["b"],
+                "harness": "h_preempt"}
+        run.dist("preempt A=" + j["scen"], len(runs))
+        run.dist("preempt B=" + j["bn"], len(runs))
+        if rc != 0 or loose or "DONE" not in out:
+            k = len(runs) - (0 if runs and runs[-1]["ended"] else 1) if runs else 0
+            tail = [o for o in out if o][-3:]
+            cls = "growth-during-main-copy" if j["scen"] == "backup" and j["bn"] == "grow" else "crash"
+            run.violation(dict(base, k=max(k, 0), history=tail, stderr=err[-300:], **{"class": cls}),
+                          "preemption explorer: A = `%s`, B = `%s`, WAL %s: the process did not survive B running at lock release %d of A "
+                          "(exit %s, %s)" % (j["a"][:60], j["b"][:40], "on" if j["wal"] else "off", max(k, 0), rc, (loose or tail)[:2]))
+            nviol += 1
+        pred = preds[tidx[ji]] if ji in tidx and tidx[ji] < len(preds) else None
+        if ji in tidx and pred is None and model:
+            run.broken.append("T2: no model answer for the lock trace of `%s`" % j["a"][:60])
+        if pred is not None:
+            ung = pred[0]
+            if ung:
+                run.cov["log_records_outside_remap_exclusion"] = run.cov.get("log_records_outside_remap_exclusion", 0) + 1
+            if j["wal"] and pred[3]:
+                run.broken.append("T2 outer locks: `%s` (%s) writes %d log record(s) while holding neither its database lock for writing nor the "
+                                  "exclusive store lock (hypothesis well_locked of the section theorems)" % (j["a"][:50], j["name"], pred[3]))
+            if j["wal"] and ung > UNGUARDED_KNOWN.get(j["scen"], 0):
+                run.broken.append("T2 publication discipline: `%s` (%s) writes %d log record(s) while holding no lock that excludes a remap by "
+                                  "another thread (file lock, allocator lock, exclusive store lock); the section model has %d for this operation"
+                                  % (j["a"][:50], j["name"], ung, UNGUARDED_KNOWN.get(j["scen"], 0)))
+        for r in runs:
+            r["wal"] = str(j["wal"])
+            bw = r.get("bwin", "?").split(":")[0]
+            run.dist("preempt window=" + bw)
+            run.case("preempt|%s|%s|%d|%d" % (j["name"], j["bn"], j["wal"], r["k"]), nontrivial=True,
+                     sample={"A": j["a"][:60], "B": j["b"][:40], "wal": j["wal"], "k": r["k"], "window": r.get("bwin")} if r["k"] == 3 else None)
+            why = judge(C07, r, init, j["a"], j["b"])
+            md = r.get("mapdiff")
+            if why:
+                rep = dict(base, k=r["k"], window=r.get("bwin"), history=history_of(r), final=r["FINAL"], reopen=r["REOPEN"],
+                           mapping_vs_log=md, lock_events_of_A=" ".join(r["ev"])[:1500], **{"class": "atomicity"})
+                if run.violation(rep, "preemption explorer: A = `%s`, B = `%s`, WAL %s, B released at lock release %d of A (%s): %s"
+                                 % (j["a"][:60], j["b"][:40], "on" if j["wal"] else "off", r["k"], r.get("bwin"), why)):
+                    nviol += 1
+            else:
+                run.cov["traces_validated_against_impl"] += 1
+            # T2: the model's prediction "mapping differs from file + log" against the implementation, per hand-over point
+            if j["wal"] and (md or pred is not None):
+                possible = pred is not None and j["bn"] == "grow" and r["k"] < len(pred[2]) and pred[2][r["k"]] == "1"
+                predicted = possible and bw == "done" and r.get("grew") == "1"
+                if possible and md:
+                    stale_seen += 1
+                    note = ("`%s` with a file growth by another thread at lock release %d: %s (bytes of the mapping that the file and the log do "
+                            "not hold; the section model predicts it from the lock trace: a log record written behind release_mmap)"
+                            % (j["a"][:50], r["k"], md))
+                    if j["scen"] in UNGUARDED_KNOWN and not why:
+                        if open_findings:
+                            run.violation(dict(base, k=r["k"], window=r.get("bwin"), history=history_of(r), mapping_vs_log=md,
+                                               lock_events_of_A=" ".join(r["ev"])[:1500], **{"class": "sblk-destroy-late-log"}), note)
+                        else:
+                            run.notes.append("open finding (VERIF_CONC_OPEN=1 reports it): " + note)
+                elif md and not possible and not why:
+                    run.broken.append("T2 correspondence: A = `%s`, B = `%s`, k = %d (%s): %s - the mapping at rest is not what the file and the log hold, "
+                                      "the section model predicts no such state from the lock trace" % (j["a"][:50], j["b"][:30], r["k"], r.get("bwin"), md))
+                elif predicted and not md:
+                    run.broken.append("T2 correspondence: A = `%s`, B = grow, k = %d: the section model predicts stale mapping bytes, the implementation shows none"
+                                      % (j["a"][:50], r["k"]))
+    if open_findings:
+        leak_probe(run, C07, exe, work)
+    run.cov["preempt_pairs"] = len(jobs)
+    run.cov["preempt_stale_predictions_confirmed"] = stale_seen
+    return nviol
+
+
+def leak_probe(run, C07, exe, work):
+    """open finding `_sblk_destroy` (log record behind release_mmap): what the stale byte costs.  The node of k032 is removed with
+    a file growth by thread B between the store and its log record; afterwards every other record of the page's nodes is deleted:
+    the page is never given back to the allocator (compare the allocated block count with the run without the race)."""
+    setup, a, key, dk = a_scenarios()["del_lastnode"]
+    b = b_ops(key, dk)["grow"]
+    post = ["del 0 %s" % hx("k%03d" % i) for i in range(32)] + ["checkpoint"]
+    init = init_state(C07, setup)
+    rc, out, err = run_script(exe, script(os.path.join(work, "leak.db"), 1, setup, a, b, 0, 0, post))
+    runs, loose = parse_runs(out)
+    base = [r for r in runs if r["k"] == 0 and "alloc" in r]
+    for r in runs:
+        r["wal"] = "1"
+        if base and "alloc" in r and r["alloc"] != base[0]["alloc"] and not judge(C07, r, init, a, b, len(post)):
+            run.violation({"kind": "preempt", "pair": ["del_lastnode", "grow"], "wal": 1, "setup": setup, "a": a, "b": b, "post": post, "k": r["k"],
+                           "window": r.get("bwin"), "history": history_of(r)[:2], "allocated_blocks": r["alloc"],
+                           "allocated_blocks_without_the_race": base[0]["alloc"], "harness": "h_preempt", "class": "sblk-destroy-late-log"},
+                          "space leak: `%s` with a file growth by another thread at lock release %d of the delete, then every other record of the "
+                          "database deleted: %d blocks stay allocated, %d without the race (the page of the removed nodes is never released: the "
+                          "slot byte cleared by _sblk_destroy was not logged when the mapping was replaced)" % (a, r["k"], r["alloc"], base[0]["alloc"]))
+            return
+
+
+def replay_one(C07, r, times=3):
+    """re-runs the recorded (A, B, k, WAL mode) and judges it"""
+    import tempfile, shutil
+    exe = vlib.build_harness("h_preempt")
+    work = tempfile.mkdtemp(prefix="iwkv-C07p-")
+    bad = 0
+    try:
+        for _ in range(times):
+            rc, out, err = run_script(exe, script(os.path.join(work, "r.db"), r["wal"], r["setup"], r["a"], r["b"], r["k"], -1, r.get("post", ())))
+            runs, loose = parse_runs(out)
+            print("A = %s | B = %s | WAL %s | B released at lock release %d of A" % (r["a"][:80], r["b"][:60], "on" if r["wal"] else "off", r["k"]))
+            if rc != 0 or loose or not runs:
+                print("VIOLATES: the process did not survive (exit %s) %s" % (rc, (loose or [o for o in out if o][-2:])))
+                bad = 1
+                break
+            run_ = runs[0]
+            run_["wal"] = str(r["wal"])
+            why = judge(C07, run_, init_state(C07, r["setup"]), r["a"], r["b"], len(r.get("post", ())))
+            for h in history_of(run_)[:4]:
+                print("  " + h)
+            if r.get("allocated_blocks_without_the_race") is not None:
+                print("  allocated blocks: %s (recorded: %s with the race, %s without)" % (run_.get("alloc"), r.get("allocated_blocks"), r["allocated_blocks_without_the_race"]))
+                if run_.get("alloc") != r["allocated_blocks_without_the_race"]:
+                    why = why or "blocks stay allocated that no record needs"
+            print("  final: %s" % {d: v[:100] for d, v in run_["FINAL"].items() if v != "-"})
+            if run_.get("mapdiff"):
+                print("  " + run_["mapdiff"])
+            if why or (r.get("class") == "sblk-destroy-late-log" and run_.get("mapdiff")):
+                print("VIOLATES:", why or "mapping bytes at rest differ from file + log")
+                bad = 1
+                break
+    finally:
+        shutil.rmtree(work, ignore_errors=True)
+    print("violation reproduced" if bad else "not reproduced")
+    return bad
